@@ -112,7 +112,8 @@ class TinyEnv:
 
       def reset(s, rng):
         o = jax.random.uniform(rng, (3,))
-        return State(pipeline_state=o * 2.0, obs=o, reward=jp.zeros(()), done=jp.zeros(()), metrics={'m': jp.zeros(())}, info={})
+        scale = 1.0 if s.sys is None else s.sys['gain']          # the initial state depends on the (possibly randomised) system, as pipeline.init does
+        return State(pipeline_state=o * 2.0 * scale, obs=o, reward=jp.zeros(()), done=jp.zeros(()), metrics={'m': jp.zeros(())}, info={})
 
       def step(s, state, action):
         scale = 1.0 if s.sys is None else s.sys['gain']
@@ -147,7 +148,10 @@ def is_vmap():
     b2 = str(jax.make_jaxpr(lambda k: jax.vmap(env.reset)(jax.random.split(k, B)))(jax.random.PRNGKey(1)))
     bad = [n for n, (x, y) in {'step': (j1, j2), 'reset': (r1, r2), 'reset(batch_size)': (b1, b2)}.items() if x != y]
     if bad:
-      return Result(REFUTED, 'VmapWrapper.%s does not trace to jax.vmap of the inner function' % bad, replay=_replay_vmap())
+      rp = _replay_vmap()
+      if not rp.get('reproduced'):          # a textual difference with equal member results is not a refutation
+        return Result(UNDECIDED, 'VmapWrapper.%s differs textually from jax.vmap of the inner function, but the members agree natively' % bad)
+      return Result(REFUTED, 'VmapWrapper.%s does not trace to jax.vmap of the inner function' % bad, replay=rp)
     return Result(PROVED, 'VmapWrapper.step/reset/reset(batch_size) trace to jaxprs identical to jax.vmap(env.step/reset)', stats={'jaxprs_compared': 3})
   return Obligation('C07/VmapWrapper/is_vmap', 'brax.envs.wrappers.training:VmapWrapper', 'the wrapper\'s traced program is identical to jax.vmap of the inner env\'s reset/step',
                     run, backend='jaxpr-identity', budget=120)
@@ -210,6 +214,42 @@ def dr_is_vmap():
   return Obligation('C07/DomainRandomizationVmapWrapper/member[B=3]', 'brax.envs.wrappers.training:DomainRandomizationVmapWrapper.step',
                     'member i of the randomised batched step = a solo environment built from member i\'s system, stepped on member i\'s state and action '
                     '(symbolic per-member systems, states, actions; sin/tanh uninterpreted)', run, backend='smt', budget=120)
+
+
+def dr_reset_is_vmap():
+  def run():
+    tr = _tr()
+    B = 3
+    rng = jax.random.split(jax.random.PRNGKey(0), B)
+    gains = jp.arange(1.0, B + 1.0)
+
+    def wrapped(g, k):
+      env = TinyEnv()
+      env.sys = {'gain': jp.ones(())}
+      return tr.DomainRandomizationVmapWrapper(env, lambda sys: ({'gain': g}, {'gain': 0})).reset(k)
+
+    def solo(g, k):
+      env = TinyEnv()
+      env.sys = {'gain': g}
+      return env.reset(k)
+    j1 = str(jax.make_jaxpr(wrapped)(gains, rng))
+    j2 = str(jax.make_jaxpr(jax.vmap(solo))(gains, rng))
+    if j1 != j2:
+      # native: member i of the randomised reset vs the solo environment of system i
+      a = wrapped(gains, rng)
+      bad = None
+      for i in range(B):
+        b = solo(gains[i], rng[i])
+        if not np.allclose(np.asarray(a.pipeline_state[i]), np.asarray(b.pipeline_state)):
+          bad = {'member': i, 'batched_pipeline_state': np.asarray(a.pipeline_state[i]).tolist(), 'solo_pipeline_state': np.asarray(b.pipeline_state).tolist()}
+          break
+      if bad is None:          # a textual difference with equal member results is not a refutation (a harmless refactor may reorder the trace)
+        return Result(UNDECIDED, 'the traced reset differs textually from jax.vmap of the per-member reset, but the members agree natively')
+      return Result(REFUTED, 'DomainRandomizationVmapWrapper.reset does not trace to jax.vmap of the per-member reset (each member must be reset with ITS system)', replay={'reproduced': True, **bad})
+    return Result(PROVED, 'reset traces to exactly jax.vmap(lambda sys_i, key_i: Env(sys_i).reset(key_i)) (jaxpr identity, per-member systems as traced inputs)', stats={'eqns': j1.count('\n')})
+  return Obligation('C07/DomainRandomizationVmapWrapper/reset_is_vmap', 'brax.envs.wrappers.training:DomainRandomizationVmapWrapper.reset',
+                    'the randomised batched reset IS jax.vmap of the single-environment reset over (per-member system, per-member key): member i starts from the state of a solo environment '
+                    'built from member i\'s system', run, backend='jaxpr-identity', budget=120)
 
 
 def _replay_dr():
@@ -352,7 +392,7 @@ def bounded(tier):
 def obligations(tier):
   Q, Th = ('quick', 'thorough'), ('thorough',)
   obs = [member('episode', 2, 2, Q), member('autoreset', 2, 1, Q), member('eval', 2, 1, Q), member('autoreset', 3, 2, Q), member('episode', 3, 1, Th),
-         member('eval', 3, 2, Th), is_vmap(), dr_is_vmap(),
+         member('eval', 3, 2, Th), is_vmap(), dr_is_vmap(), dr_reset_is_vmap(),
          noninterference('spring', 'required', Q), noninterference('positional', 'required', Q), noninterference('generalized', 'attempted', Th),
          bounded(tier)]
 
